@@ -125,6 +125,7 @@ class Interp:
                 self.scheme = build_scheme(kind, case, add_svd=False)
                 self.snap = snapshot(self.scheme)
                 self.cap = capture.open_objective(self.scheme)
+                self.cap.poison = True  # the returned penalty vector and the given x are overwritten after every evaluation
             except Exception as e:  # noqa: BLE001  (degenerate schemes are C02's business)
                 raise Discard(f"scheme cannot be evaluated at x0: {type(e).__name__}")
         self.x0 = self.cap.x0.copy()
@@ -134,7 +135,7 @@ class Interp:
         self.record(self.x0, self.cap(self.x0))
 
     def record(self, x, v):
-        self.seen.append((np.array(x, dtype=float), v))
+        self.seen.append((np.array(x, dtype=float), np.array(v, dtype=float, copy=True)))
 
     def point(self, factors):
         f = np.array((list(factors) * (self.x0.size // max(len(factors), 1) + 1))[: self.x0.size], dtype=float)
